@@ -312,4 +312,20 @@ def newErrorsFieldsRead : List String :=
 def forwardedOptions (decoder : String) : List String :=
   ((decoderKwargs (.str decoder) .null .null .null).map (·.1)).filter (· != "osd_order")
 
+/-- the body `getCorrection` of `main.js` posts to `/decode`, keys in the order written there -/
+def frontEndDecodeReq (codeName : String) (lx ly lz p maxBpIter alpha beta channelUpdate syndrome : JV)
+    (noiseDeformationName decoder errorModel codeDeformationName : String) : Req :=
+  [("Lx", lx), ("Ly", ly), ("Lz", lz), ("p", p), ("max_bp_iter", maxBpIter), ("alpha", alpha),
+   ("beta", beta), ("channel_update", channelUpdate), ("syndrome", syndrome),
+   ("noise_deformation_name", .str noiseDeformationName), ("decoder", .str decoder),
+   ("error_model", .str errorModel), ("code_name", .str codeName),
+   ("code_deformation_name", .str codeDeformationName)]
+
+/-- the body `getRandomErrors` of `main.js` posts to `/new-errors` -/
+def frontEndNoiseReq (codeName : String) (lx ly lz p : JV)
+    (noiseDeformationName errorModel codeDeformationName : String) : Req :=
+  [("Lx", lx), ("Ly", ly), ("Lz", lz), ("p", p),
+   ("noise_deformation_name", .str noiseDeformationName), ("error_model", .str errorModel),
+   ("code_name", .str codeName), ("code_deformation_name", .str codeDeformationName)]
+
 end Panqec.GuiRoutes
